@@ -294,6 +294,7 @@ impl Srv {
                     }
                 }
             }
+            "stress" => crate::stress::stress(self.addr, self.shared.clone(), op).await,
             "save" => match self.shared.read().await.persist_messages().await {
                 Ok(n) => json!({"r": "ok", "n": n}),
                 Err(e) => err_json(&e),
